@@ -7,6 +7,17 @@ from vlib import streamlib
 PRIV = 'Pr1vK3y-Zq77qZ+secret/val=ue'
 PUB = 'pubk3yKp9pK'
 
+def tzif_with_recent_switch(path, now, days_ago=3, before=0, after=3600):
+    """writes a minimal TZif (version 1) time-zone file whose UTC offset changed `days_ago` days before `now` (seconds since the epoch) from `before` to
+    `after` seconds: a machine whose local clocks were moved within the last week, as every daylight-saving zone is twice a year. Use with TZ=<path>."""
+    import struct
+    t = int(now) - days_ago * 86400
+    abbr = b'AAA\0BBB\0'
+    hdr = b'TZif' + b'\0' + b'\0' * 15 + struct.pack('>6l', 0, 0, 0, 1, 2, len(abbr))      # isutcnt, isstdcnt, leapcnt, timecnt, typecnt, charcnt
+    body = struct.pack('>l', t) + bytes([1]) + struct.pack('>lBB', before, 0, 0) + struct.pack('>lBB', after, 1, 4) + abbr
+    open(path, 'wb').write(hdr + body)
+    return path
+
 def conn_string(hosts, srv=False):
     if srv: return 'mongodb+srv://' + hosts[0] + '/?ssl=true'
     return 'mongodb://' + ','.join(hosts) + '/?ssl=true&authSource=admin&replicaSet=atlas-abc-shard-0'
